@@ -2527,31 +2527,7 @@ B("C16-block-size-rounded-on-encode", "C16", "C16:R-C16.3:keyspace::config::bloc
   """*item""", """(*item).next_power_of_two()""")
 
 # ======================================================================== R-C18.3: a repaired scratch copy must be silent (the rule is a known finding today)
-E2("REPAIRED-C18-replay-skips-persisted-records",
-   [(DB, """                        let tree = &keyspace.tree;
-
-                        match item.value_type {
-                            lsm_tree::ValueType::Value => {
-                                tree.insert(item.key, item.value, batch.seqno);""",
-     """                        let tree = &keyspace.tree;
-
-                        if tree.get_highest_persisted_seqno().is_some_and(|p| batch.seqno <= p) {
-                            continue;
-                        }
-
-                        match item.value_type {
-                            lsm_tree::ValueType::Value => {
-                                tree.insert(item.key, item.value, batch.seqno);"""),
-    (REC, """                match item.value_type {
-                    lsm_tree::ValueType::Value => {
-                        tree.insert(item.key, item.value, batch.seqno);""",
-     """                if tree.get_highest_persisted_seqno().is_some_and(|p| batch.seqno <= p) {
-                    continue;
-                }
-
-                match item.value_type {
-                    lsm_tree::ValueType::Value => {
-                        tree.insert(item.key, item.value, batch.seqno);""")], props=["C18"])
+# (the REPAIRED-C18 scratch copy became repair 11; what is left of R-C18.3 — a monotone watermark — has no small repair to mutate in)
 
 # ======================================================================== reverted fix 9 (keyspace id reuse)
 B("F09-C12-active-replay-ids-not-reserved", "C12", "C12:R-C12.4:db::Database::recover:replayed-ids-are-never-handed-out-again", DB,
@@ -2602,21 +2578,7 @@ RP("REPAIRED-C06-major-compact-under-journal-lock", "C06", "C06:R-C06.6:keyspace
             64_000_000,""", """        let _journal_lock = self.supervisor.journal.get_writer()?;
         self.tree.major_compact(
             64_000_000,""")])
-RP("REPAIRED-C18-active-replay-skips-persisted", "C18", "C18:R-C18.3:db::Database::recover:replay-skips-records-already-persisted",
-   [(DB, """                        let tree = &keyspace.tree;
 
-                        match item.value_type {
-                            lsm_tree::ValueType::Value => {
-                                tree.insert(item.key, item.value, batch.seqno);""",
-     """                        let tree = &keyspace.tree;
-
-                        if tree.get_highest_persisted_seqno().is_some_and(|p| batch.seqno <= p) {
-                            continue;
-                        }
-
-                        match item.value_type {
-                            lsm_tree::ValueType::Value => {
-                                tree.insert(item.key, item.value, batch.seqno);""")])
 B("C06-ingestion-finish-without-journal-lock", "C06", "C06:R-C06.6:ingestion::Ingestion::<'a>::finish", "src/ingestion.rs",
   "        let _journal_lock = self.keyspace.supervisor.journal.get_writer();\n", "")
 B("C06-clear-tree-after-releasing-journal-lock", "C06", "C06:R-C06.6:keyspace::Keyspace::clear", KS,
@@ -2826,3 +2788,385 @@ B("F13-C13-keyspace-deletion-ignores-poison", "C13", "C13:R-C13.7:db::Database::
 
         self.meta_keyspace.remove_keyspace(&handle.name)?;""",
   """        self.meta_keyspace.remove_keyspace(&handle.name)?;""")
+
+
+# ======================================================================== refreshed contexts (the repairs 14-23 moved the code under older mutants)
+def _override(mid, edits):
+    for lst in (BREAK, EQUIV, REPAIR):
+        for m in lst:
+            if m["id"] == mid:
+                m["edits"] = [dict(file=f, old=o, new=n) for f, o, n in edits]
+                return
+    raise KeyError(mid)
+
+
+_RM_HEAD = """        // NOTE: Validate before anything reaches the journal (see insert)
+        assert!(!key.is_empty(), "key may not be empty");
+        assert!(
+            u16::try_from(key.len()).is_ok(),
+            "Keys can be up to 65535 bytes long"
+        );
+
+"""
+_override("C13-check-before-lock", [(KS, _RM_HEAD + """        let mut journal_writer = self.supervisor.journal.get_writer()?;
+
+        // IMPORTANT: Check the poisoned flag after getting journal mutex, otherwise TOCTOU
+        if self.is_poisoned.is_poisoned() {
+            return Err(crate::Error::Poisoned);
+        }
+
+        let seqno = self.supervisor.seqno.next();
+
+        journal_writer
+            .write_raw(self.id, &key, &[], lsm_tree::ValueType::Tombstone, seqno)""",
+                                     _RM_HEAD + """        if self.is_poisoned.is_poisoned() {
+            return Err(crate::Error::Poisoned);
+        }
+
+        let mut journal_writer = self.supervisor.journal.get_writer()?;
+
+        let seqno = self.supervisor.seqno.next();
+
+        journal_writer
+            .write_raw(self.id, &key, &[], lsm_tree::ValueType::Tombstone, seqno)""")])
+_override("EQ-journal-lock-helper-fn", [(KS, _RM_HEAD + """        let mut journal_writer = self.supervisor.journal.get_writer()?;
+
+        // IMPORTANT: Check the poisoned flag after getting journal mutex, otherwise TOCTOU
+        if self.is_poisoned.is_poisoned() {
+            return Err(crate::Error::Poisoned);
+        }
+
+        let seqno = self.supervisor.seqno.next();
+
+        journal_writer
+            .write_raw(self.id, &key, &[], lsm_tree::ValueType::Tombstone, seqno)""",
+                                         _RM_HEAD + """        let mut journal_writer = self.lock_journal()?;
+
+        // IMPORTANT: Check the poisoned flag after getting journal mutex, otherwise TOCTOU
+        if self.is_poisoned.is_poisoned() {
+            return Err(crate::Error::Poisoned);
+        }
+
+        let seqno = self.supervisor.seqno.next();
+
+        journal_writer
+            .write_raw(self.id, &key, &[], lsm_tree::ValueType::Tombstone, seqno)"""),
+                                        (KS, "    fn check_write_halt(&self) {", """    fn lock_journal(&self) -> crate::Result<MutexGuard<'_, crate::journal::writer::Writer>> {
+        self.supervisor.journal.get_writer()
+    }
+
+    fn check_write_halt(&self) {""")])
+_ING = "src/ingestion.rs"
+_ING_TAIL = """            })?;
+
+        self.inner
+            .finish()"""
+_override("C14-ingest-lock-dropped", [(_ING, _ING_TAIL, """            })?;
+
+        drop(journal_writer);
+
+        self.inner
+            .finish()""")])
+_override("C06-ingestion-finish-without-journal-lock", [(_ING, _ING_TAIL, """            })?;
+
+        drop(journal_writer);
+
+        self.inner
+            .finish()""")])
+_override("F13-C13-ingestion-lock-result-dropped", [(_ING, """        let mut journal_writer = self.keyspace.supervisor.journal.get_writer()?;
+
+        // IMPORTANT: Check the poisoned flag after getting journal mutex, otherwise TOCTOU
+        if self.keyspace.is_poisoned.is_poisoned() {
+            return Err(crate::Error::Poisoned);
+        }
+""", """        let journal_lock = self.keyspace.supervisor.journal.get_writer();
+
+        // IMPORTANT: Check the poisoned flag after getting journal mutex, otherwise TOCTOU
+        if self.keyspace.is_poisoned.is_poisoned() {
+            return Err(crate::Error::Poisoned);
+        }
+
+        let Ok(mut journal_writer) = journal_lock else {
+            return self.inner.finish().map_err(Into::into);
+        };
+""")])
+_override("C12-flag-before-meta-removal", [(DB, """        self.meta_keyspace.remove_keyspace(&handle.name, handle.id)?;
+
+        handle
+            .is_deleted
+            .store(true, std::sync::atomic::Ordering::Release);
+""", """        handle
+            .is_deleted
+            .store(true, std::sync::atomic::Ordering::Release);
+
+        self.meta_keyspace.remove_keyspace(&handle.name, handle.id)?;
+""")])
+_override("EQ-delete-keyspace-name-local", [(DB, """        self.meta_keyspace.remove_keyspace(&handle.name, handle.id)?;
+
+        handle
+            .is_deleted
+            .store(true, std::sync::atomic::Ordering::Release);""", """        let name = handle.name.clone();
+        let id = handle.id;
+        self.meta_keyspace.remove_keyspace(&name, id)?;
+
+        let flag = &handle.is_deleted;
+        flag.store(true, std::sync::atomic::Ordering::Release);""")])
+_override("F13-C13-keyspace-deletion-ignores-poison", [(DB, """        if self.is_poisoned.is_poisoned() {
+            return Err(crate::Error::Poisoned);
+        }
+
+        self.meta_keyspace.remove_keyspace(&handle.name, handle.id)?;""", """        self.meta_keyspace.remove_keyspace(&handle.name, handle.id)?;""")])
+_override("C12-replay-skips-resolve", [(DB, """                        let Some(keyspace_name) = db.meta_keyspace.resolve_id(*keyspace_id)? else {
+                            continue;
+                        };
+
+                        let Some(keyspace) = keyspaces.get(&keyspace_name) else {
+                            continue;
+                        };
+
+                        // NOTE: Tables newer than the clear""", """                        let Some(keyspace) = keyspaces.values().find(|k| k.id == *keyspace_id) else {
+                            continue;
+                        };
+
+                        // NOTE: Tables newer than the clear""")])
+_override("C04-active-replay-no-clear", [(DB, """                        keyspace.tree.clear().ok();
+
+                        persisted_seqnos.forget(keyspace);""", """                        persisted_seqnos.forget(keyspace);""")])
+_override("C04-replay-wrong-seqno", [(REC, """                    lsm_tree::ValueType::Value => {
+                        tree.insert(item.key, item.value, batch.seqno);
+                    }""", """                    lsm_tree::ValueType::Value => {
+                        tree.insert(item.key, item.value, db.supervisor.seqno.next());
+                    }""")])
+_override("C16-options-applied-to-existing", [(DB, """        let keyspaces = self.supervisor.keyspaces.write().expect("lock is poisoned");
+
+        Ok(if let Some(keyspace) = keyspaces.get(name) {
+            keyspace.clone()
+        } else {
+            if self.is_poisoned.is_poisoned() {
+                return Err(crate::Error::Poisoned);
+            }
+
+            let name: KeyspaceKey = name.into();
+
+            let keyspace_id = self.keyspace_id_counter.next();
+
+            let mut opts = create_options();
+""", """        let keyspaces = self.supervisor.keyspaces.write().expect("lock is poisoned");
+        let mut opts = create_options();
+
+        Ok(if let Some(keyspace) = keyspaces.get(name) {
+            keyspace.clone()
+        } else {
+            if self.is_poisoned.is_poisoned() {
+                return Err(crate::Error::Poisoned);
+            }
+
+            let name: KeyspaceKey = name.into();
+
+            let keyspace_id = self.keyspace_id_counter.next();
+""")])
+_override("S07-C06-visible-counter-aliases-generator", [(DB, """    pub fn recover(config: Config) -> crate::Result<Self> {""", """    pub fn recover(config: Config) -> crate::Result<Self> {
+        // (seed S07, ported) the visible counter is an alias of the generator"""),
+                                                         (DB, """        let seqno = SequenceNumberCounter::default();
+        let visible_seqno = SequenceNumberCounter::default();
+
+        let meta_tree = lsm_tree::Config::new(
+            config.path.join(KEYSPACES_FOLDER).join("0"),
+            seqno.clone(),
+            visible_seqno.clone(),
+        )
+        .use_cache(config.cache.clone())
+        .use_descriptor_table(config.descriptor_table.clone())
+        .expect_point_read_hits(true)
+        .data_block_size_policy(crate::config::BlockSizePolicy::all(4_096))
+        .data_block_hash_ratio_policy(crate::config::HashRatioPolicy::all(8.0))
+        .data_block_compression_policy(crate::config::CompressionPolicy::disabled())
+        .data_block_restart_interval_policy(crate::config::RestartIntervalPolicy::all(1))
+        .index_block_compression_policy(crate::config::CompressionPolicy::disabled())
+        .filter_policy(crate::config::FilterPolicy::new([
+            lsm_tree::config::FilterPolicyEntry::Bloom(
+                lsm_tree::config::BloomConstructionPolicy::FalsePositiveRate(0.0001),
+            ),
+            lsm_tree::config::FilterPolicyEntry::Bloom(
+                lsm_tree::config::BloomConstructionPolicy::FalsePositiveRate(0.01),
+            ),
+        ]))
+        .open()?;
+
+        // NOTE: The meta keyspace is written""", """        let seqno = SequenceNumberCounter::default();
+        let visible_seqno = seqno.clone();
+
+        let meta_tree = lsm_tree::Config::new(
+            config.path.join(KEYSPACES_FOLDER).join("0"),
+            seqno.clone(),
+            visible_seqno.clone(),
+        )
+        .use_cache(config.cache.clone())
+        .use_descriptor_table(config.descriptor_table.clone())
+        .expect_point_read_hits(true)
+        .data_block_size_policy(crate::config::BlockSizePolicy::all(4_096))
+        .data_block_hash_ratio_policy(crate::config::HashRatioPolicy::all(8.0))
+        .data_block_compression_policy(crate::config::CompressionPolicy::disabled())
+        .data_block_restart_interval_policy(crate::config::RestartIntervalPolicy::all(1))
+        .index_block_compression_policy(crate::config::CompressionPolicy::disabled())
+        .filter_policy(crate::config::FilterPolicy::new([
+            lsm_tree::config::FilterPolicyEntry::Bloom(
+                lsm_tree::config::BloomConstructionPolicy::FalsePositiveRate(0.0001),
+            ),
+            lsm_tree::config::FilterPolicyEntry::Bloom(
+                lsm_tree::config::BloomConstructionPolicy::FalsePositiveRate(0.01),
+            ),
+        ]))
+        .open()?;
+
+        // NOTE: The meta keyspace is written""")])
+_WK_NEW_HEAD = """                            let _thread_counter = ThreadCounterGuard(thread_counter);
+                            let worker_state = worker_state;
+                            let poison_dart = poison_dart;
+
+                            loop {
+                                match worker_tick(&worker_state) {
+                                    Ok(should_abort) => {
+                                        if should_abort {
+                                            log::debug!(
+                                                "Worker #{i} closes because DB is dropping"
+                                            );
+                                            return Ok(());"""
+_WK_EXPLICIT = """                            let worker_state = worker_state;
+                            let poison_dart = poison_dart;
+
+                            loop {
+                                match worker_tick(&worker_state) {
+                                    Ok(should_abort) => {
+                                        if should_abort {
+                                            log::debug!(
+                                                "Worker #{i} closes because DB is dropping"
+                                            );
+                                            drop(worker_state);
+                                            drop(poison_dart);
+                                            thread_counter.fetch_sub(1, Relaxed);
+                                            return Ok(());"""
+_override("F07-C17-worker-error-keeps-counter", [(WP, _WK_NEW_HEAD, _WK_EXPLICIT)])
+_override("EQ-worker-explicit-decrements", [(WP, _WK_NEW_HEAD, _WK_EXPLICIT),
+                                            (WP, """                                        poison_dart.poison();
+                                        return Err(e);""", """                                        poison_dart.poison();
+                                        drop(worker_state);
+                                        drop(poison_dart);
+                                        thread_counter.fetch_sub(1, Relaxed);
+                                        return Err(e);""")])
+_override("C05-gc-lowest-is-max", [(TRACKER, "                lowest_retained = Some(lowest_retained.map_or(k, |lo| lo.min(k)));",
+                                    "                lowest_retained = Some(lowest_retained.map_or(k, |lo| lo.max(k)));")])
+_override("C05-gc-candidate-only-for-recent", [(TRACKER, """            if should_be_retained {
+                lowest_retained = Some(""", """            if should_be_retained && k >= seqno_threshold {
+                lowest_retained = Some(""")])
+_override("EQ-batch-empty-check-on-data", [(BATCH, """        if self.is_empty() {
+            // NOTE: Even without items""", """        if self.data.is_empty() {
+            // NOTE: Even without items""")])
+B2("F14-C05-gc-zero-sentinel", "C05", "C05:R-C05.6:snapshot_tracker::SnapshotTracker::gc::{closure#0}:lowest-retained-has-no-in-band-sentinel",
+   [(TRACKER, """        let mut lowest_retained: Option<SeqNo> = None;""", """        let mut lowest_retained = 0;
+        let mut none_retained = true;"""),
+    (TRACKER, """                lowest_retained = Some(lowest_retained.map_or(k, |lo| lo.min(k)));""", """                lowest_retained = match lowest_retained {
+                    0 => k,
+                    lo => lo.min(k),
+                };
+                none_retained = false;"""),
+    (TRACKER, """        let lowest_retained = lowest_retained.unwrap_or(seqno_threshold);""", """        if none_retained {
+            lowest_retained = seqno_threshold;
+        }""")])
+
+# ======================================================================== reverted fixes 15-23
+OKS = "src/tx/optimistic/keyspace.rs"
+for _n in ("get", "size_of", "contains_key"):
+    B("F15-C07-optimistic-%s-reads-latest" % _n, "C07", "C07:R-C07.8:tx::optimistic::keyspace::OptimisticTxKeyspace::%s" % _n, OKS,
+      "        let read_tx = self.db.read_tx();\n        read_tx.%s(self, key)\n" % _n, "        self.inner.%s(key)\n" % _n)
+B("F16-C03-ingestion-does-not-flush-journal-buffer", "C03", "C03:R-C03.8:ingestion::Ingestion::<'a>::finish:journal-buffer-flushed", _ING,
+  """        journal_writer
+            .persist(crate::PersistMode::Buffer)
+            .inspect_err(|e| {
+                log::error!("persist failed, which is a FATAL, and possibly hardware-related, failure: {e:?}");
+                self.keyspace.is_poisoned.poison();
+            })?;
+""", """        let _ = &mut journal_writer;
+""")
+B("F17-C02-insert-key-not-validated", "C02", "C02:R-C02.8:keyspace::Keyspace::insert", KS,
+  """        assert!(!key.is_empty(), "key may not be empty");
+        assert!(
+            u16::try_from(key.len()).is_ok(),
+            "Keys can be up to 65535 bytes long"
+        );
+        assert!(
+            u32::try_from(value.len()).is_ok(),""", """        assert!(
+            u32::try_from(value.len()).is_ok(),""")
+B("C02-insert-key-validated-after-append", "C02", "C02:R-C02.8:keyspace::Keyspace::insert", KS,
+  """        assert!(!key.is_empty(), "key may not be empty");
+        assert!(
+            u16::try_from(key.len()).is_ok(),
+            "Keys can be up to 65535 bytes long"
+        );
+        assert!(
+            u32::try_from(value.len()).is_ok(),
+            "Values can be up to 2^32 bytes long"
+        );
+
+        let mut journal_writer = self.supervisor.journal.get_writer()?;
+""", """        let mut journal_writer = self.supervisor.journal.get_writer()?;
+
+        assert!(!key.is_empty(), "key may not be empty");
+        assert!(
+            u16::try_from(key.len()).is_ok(),
+            "Keys can be up to 65535 bytes long"
+        );
+        assert!(
+            u32::try_from(value.len()).is_ok(),
+            "Values can be up to 2^32 bytes long"
+        );
+""")
+B("F18-C09-empty-batch-skips-sync", "C09", "C09:R-C09.8:batch::WriteBatch::commit", BATCH,
+  """            if let Some(mode @ (crate::PersistMode::SyncData | crate::PersistMode::SyncAll)) =
+                self.durability
+            {
+                self.db.persist(mode)?;
+            }
+
+""", "")
+B("F18-C09-optimistic-read-only-shortcut", "C09", "C09:R-C09.8:tx::optimistic::write_tx::WriteTransaction::commit", "src/tx/optimistic/write_tx.rs",
+  """            self.inner.commit()?;
+            return Ok(Ok(()));""", """            return Ok(Ok(()));""")
+B("F19-C10-empty-memtables-still-pin-journal", "C10", "C10:R-C10.6:journal::manager::JournalManager::maintenance", "src/journal/manager.rs",
+  """                    if item.keyspace.tree.get_highest_memtable_seqno().is_none() {
+                        continue;
+                    }
+
+""", "")
+B("C10-nonempty-memtables-release-journal", "C10", "C10:R-C10.1:journal::manager::JournalManager::maintenance", "src/journal/manager.rs",
+  """                    if item.keyspace.tree.get_highest_memtable_seqno().is_none() {
+                        continue;
+                    }""", """                    if item.keyspace.tree.get_highest_memtable_seqno().is_some() {
+                        continue;
+                    }""")
+B("F20-C12-remove-keyspace-ignores-id", "C12", "C12:R-C12.8:meta_keyspace::MetaKeyspace::remove_keyspace", "src/meta_keyspace.rs",
+  """        if keyspace.id != id {
+            return Ok(());
+        }
+""", """        let _ = id;
+""")
+B("F21-C12-keyspace-eq-by-name", "C12", "C12:R-C12.8:<keyspace::Keyspace as std::cmp::PartialEq>::eq", KS,
+  "        self.id == other.id", "        self.name == other.name")
+B("F21-C12-keyspace-hash-by-name", "C12", "C12:R-C12.8:<keyspace::Keyspace as std::hash::Hash>::hash", KS,
+  "        state.write_u64(self.id);", "        state.write(self.name.as_bytes());")
+B("F22-C12-deleted-watermarks-kept", "C12", "C12:R-C12.9:journal::manager::JournalManager::maintenance", "src/journal/manager.rs",
+  """        for item in &mut self.items {
+            item.watermarks.retain(|watermark| {
+                !watermark
+                    .keyspace
+                    .is_deleted
+                    .load(std::sync::atomic::Ordering::Acquire)
+            });
+        }
+""", "")
+B("F23-C17-worker-state-dropped-after-counter", "C17", "C17:R-C17.4:worker_pool::WorkerPool::start::{closure#0}::{closure#0}:worker-releases-its-state", WP,
+  """                            let _thread_counter = ThreadCounterGuard(thread_counter);
+                            let worker_state = worker_state;
+                            let poison_dart = poison_dart;
+""", """                            let _thread_counter = ThreadCounterGuard(thread_counter);
+""")
